@@ -98,6 +98,100 @@ def src_of(voices, broken=None):
     return s
 
 
+# ---- edits INSIDE the body of a voice function that is instantiated several times (response to seeded change C07c) ----
+def shared_body_stream(ck, iexe, n_hist, N):
+    """dsp = (V(c1), V(c2)[, V(c3)]) with  fn V(x){ f_a(x) + f_b(x) + .. };  ONE edit inserts or removes a stateful call inside V's
+    body (all templates have pairwise distinct state shapes, so the layout pair is unambiguous at every level).  Every surviving inner
+    voice of EVERY instance must continue: channel j = sum of the standalone simulations of its inner voices with constant c_j."""
+    ks_all, seen_t = [], set()
+    for k_ in range(40):
+        if template(k_) not in seen_t:
+            seen_t.add(template(k_)); ks_all.append(k_)
+    W = 7000
+    def prog(inner, consts):
+        funs = [voice_fun(k) for k in inner]
+        e = None
+        for k in inner:
+            c = ('call', 100 + k, [('var', 7900)])
+            e = c if e is None else ('bin', 'add', e, c)
+        return {"funs": funs + [(W, [7900], e)], "inputs": [], "lets": [], "outs": [('call', W, [('lit', c)]) for c in consts]}
+    reqs, meta, hists = [], [], []
+    for h in range(n_hist):
+        r = ck.rng.fork(("shared-body", h))
+        ks = list(ks_all)
+        for i in range(len(ks) - 1, 0, -1):
+            j = r.below(i + 1); ks[i], ks[j] = ks[j], ks[i]
+        n_in = r.range(1, 3)
+        inner = ks[:n_in]
+        consts = [r.range(1, 6) for _ in range(r.range(2, 3))]
+        te = r.choice([1, 2, 3, 5, 8, 12])
+        kind = r.choice(["append", "prepend", "insert", "remove"]) if n_in > 1 else r.choice(["append", "prepend"])
+        born = {k: 0 for k in inner}
+        if kind == "remove":
+            new_inner = list(inner); del new_inner[r.below(len(new_inner))]
+        else:
+            nk = ks[n_in]
+            born[nk] = te
+            pos = {"append": len(inner), "prepend": 0}.get(kind, r.below(len(inner) + 1))
+            new_inner = list(inner); new_inner.insert(pos, nk)
+        hists.append({"inner": inner, "new_inner": new_inner, "consts": consts, "at": te, "kind": kind, "born": born})
+        reqs.append({"src": pp_prog(prog(inner, consts)), "n": N, "state": False,
+                     "swaps": [{"at": te, "src": pp_prog(prog(new_inner, consts))}]})
+        meta.append(("hist", h, None))
+        for k in set(inner) | set(new_inner):
+            for c in sorted(set(consts)):
+                b = born[k]
+                base = Voice(k, c, b); Voice._n -= 1
+                reqs.append({"src": src_of([base]), "n": N - b, "t0": b, "state": False, "swaps": []})
+                meta.append(("solo", h, (k, c)))
+    res = run_impl(iexe, reqs)
+    solo = {(h, kc): r for (kind, h, kc), r in zip(meta, res) if kind == "solo"}
+    viol, ok = [], 0
+    for (kind, h, _), rq, r in zip(meta, reqs, res):
+        if kind != "hist":
+            continue
+        H = hists[h]
+        if 'crash' in r:
+            viol.append(("harness process died during a shared-body hot-swap history", rq, {"rc": str(r['crash'])})); continue
+        for be in ("vm", "wasm"):
+            b = r.get(be)
+            if b is None or 'samples' not in b:
+                viol.append((be + ": the initial program does not compile", rq, {"answer": str(b)[:300]})); continue
+            sw = (b.get('swaps') or [{}])[0]
+            if 'panic' in sw or not sw.get('ok'):
+                viol.append((be + ": hot swap of a compiling edit inside a shared voice body failed: " + str(sw)[:200], rq, {})); continue
+            bad = None
+            for t in range(N):
+                s = b['samples'][t] if t < len(b['samples']) else {"panic": "missing"}
+                if 'panic' in s:
+                    bad = "panic at sample %d: %s" % (t, s['panic'][:160]); break
+                cur = H["inner"] if t < H["at"] else H["new_inner"]
+                for j, c in enumerate(H["consts"]):
+                    want = 0.0
+                    for k in cur:
+                        so = solo.get((h, (k, c)))
+                        kk = t - H["born"][k]
+                        if so is None or 'crash' in so or be not in so or 'samples' not in so[be] or kk < 0 or kk >= len(so[be]['samples']) \
+                                or 'out' not in so[be]['samples'][kk]:
+                            want = None; break
+                        want += bits_to_float(so[be]['samples'][kk]['out'][0])
+                    if want is None:
+                        continue
+                    got = bits_to_float(s['out'][j])
+                    if got != want:
+                        bad = ("instance %d of the shared voice (constant %s) gives %s at sample %d, its inner voices alone give %s; edit '%s' of the "
+                               "body at sample %d: %s -> %s" % (j, c, got, t, want, H["kind"], H["at"],
+                                                                ["f%d" % (100 + k) for k in H["inner"]], ["f%d" % (100 + k) for k in H["new_inner"]]))
+                        break
+                if bad:
+                    break
+            if bad:
+                viol.append((be + ": " + bad, rq, {}))
+            else:
+                ok += 1
+    return viol, ok, len(reqs), hists
+
+
 def run(ck):
     ck.level = "proof"
     proved = ck.prove(tables=["statetree_consts"], extra_targets=[lmmm.EXTRACT_TARGET])
@@ -287,6 +381,14 @@ def run(ck):
     for (t, k) in [e for (_, evs) in histories for e in evs]:
         bump("edit_" + k)
 
+    # ---- edits inside the body of a voice function instantiated several times ----
+    sviol, sok, sreq, shists = shared_body_stream(ck, iexe, 40 if quick else 400, N)
+    stats["shared_body_histories"] = len(shists)
+    stats["shared_body_backend_runs_ok"] = sok
+    for H in shists:
+        bump("shared_body_edit_" + H["kind"])
+    distinct += sok
+
     # ---- model of the whole swap vs the real VM (single-edit histories) ----
     disag = []
     if mexe:
@@ -322,7 +424,7 @@ def run(ck):
                 else:
                     bump("model_swap_agrees")
 
-    ck.coverage["evaluations"] = len(reqs)
+    ck.coverage["evaluations"] = len(reqs) + sreq
     ck.coverage["histories"] = len(histories)
     ck.coverage["distinct_nontrivial"] = distinct
     ck.coverage["stats"] = stats
@@ -336,12 +438,15 @@ def run(ck):
         ck.violation(what, {"initial_source": src_of(versions[0][1]), "n_samples": N,
                             "swaps": [{"at": t, "src": src_of(vs, broken)} for (t, vs, broken) in versions[1:]], "edits": events, **det,
                             "how": "lmmm_run request {src, n, swaps:[{at,src}]}"})
+    for what, rq, det in sviol[:5]:
+        ck.violation(what, {"initial_source": rq["src"], "n_samples": N, "swaps": rq["swaps"], **det,
+                            "how": "lmmm_run request {src, n, swaps:[{at,src}]}"})
     if disag and not viol:
         ck.broken.append("correspondence HotSwap.swap_run vs VM new_resume: " + disag[0][0])
         versions, events = histories[disag[0][1]]
         ck.violation("model and implementation disagree on a swap; no clause of the property fails: " + disag[0][0],
                      {"initial_source": src_of(versions[0][1]), "swaps": [{"at": t, "src": src_of(vs, b)} for (t, vs, b) in versions[1:]]}, no_input=True)
-    if not proved and not viol and not disag:
+    if not proved and not viol and not disag and not sviol:
         ck.violation("a proof obligation of Props/C07.v no longer checks", {"broken": ck.broken}, no_input=True)
     return finish(ck)
 
